@@ -55,6 +55,13 @@ def match_known(known, prop, violation, steps):
 
 
 def cmd_replay(path, quiet, out):
+    try:
+        return _cmd_replay(path, quiet, out)
+    finally:
+        kernel.cleanup_base_dir()
+
+
+def _cmd_replay(path, quiet, out):
     _quiet_stdout()
     sys.setrecursionlimit(400)
     doc, rec = kernel.replay_file(path)
@@ -80,7 +87,11 @@ def cmd_replay(path, quiet, out):
 def cmd_digests(prop, tier, master, a, b, out):
     _quiet_stdout()
     sys.setrecursionlimit(400)
-    res = kernel.run_batch(prop, tier, master, a, b - a, keep_digests=True)
+    kernel.enter_private_dir("d")
+    try:
+        res = kernel.run_batch(prop, tier, master, a, b - a, keep_digests=True)
+    finally:
+        kernel.cleanup_base_dir()
     out.write(json.dumps({"digests": {str(k): v for k, v in sorted(res["digests"].items())},
                           "harness_errors": len(res["harness_errors"])}) + "\n")
     return 0
@@ -119,8 +130,9 @@ def cmd_selftest(props, master, out):
                     rc = 2
         # worker-count independence: the set of per-run digests does not depend on how runs are spread over processes
         _quiet_stdout()
-        a = kernel.explore(prop, "quick", master, 400, 1, 600, chunk=200)
-        b = kernel.explore(prop, "quick", master, 400, 16, 600, chunk=25)
+        a = kernel.explore(prop, "quick", master, 400, 1, 600, chunk=100)
+        b = kernel.explore(prop, "quick", master, 400, 16, 600, chunk=100)
+        kernel.cleanup_base_dir()
         keys = sorted(set(a["digests"]) & set(b["digests"]))
         bad = [i for i in keys if a["digests"][i] != b["digests"][i]]
         out.write("selftest-determinism %s: 1 worker vs 16 workers over %d common runs: %d mismatches; states %d vs %d\n" % (
@@ -131,6 +143,13 @@ def cmd_selftest(props, master, out):
 
 
 def cmd_check(prop, tier, master, runs, workers, wall, out, write_evidence=True):
+    try:
+        return _cmd_check(prop, tier, master, runs, workers, wall, out, write_evidence)
+    finally:
+        kernel.cleanup_base_dir()
+
+
+def _cmd_check(prop, tier, master, runs, workers, wall, out, write_evidence=True):
     from dsim import checks
     check = checks.get(prop)
     params = dict(check.tiers[tier])
@@ -170,17 +189,48 @@ def cmd_check(prop, tier, master, runs, workers, wall, out, write_evidence=True)
     seen_sig = set()
     for cls, recs in by_class.items():
         for vrec in recs[:3]:
-            steps, final, used = kernel.shrink(check, vrec["cfg"], vrec["steps"], vrec["violation"])
+            target = vrec["violation"]
+            prefix = []
+            test = kernel.make_tester(prop, tier, master, [], vrec["cfg"], target)
+            steps, final, used = kernel.shrink(test, vrec["steps"])
             if final is None:
-                out.write("HARNESS-ERROR violation of run %d did not reproduce in-process (%s)\n" % (vrec["index"], cls))
-                return 2
+                # not reproducible on its own: the violation needs process state left behind by earlier runs of the
+                # same chunk (the chunk started from a pristine process). Replay = those runs, then the steps.
+                prefix = list(range(vrec["chunk_start"], vrec["index"]))
+                test = kernel.make_tester(prop, tier, master, prefix, vrec["cfg"], target)
+                if test(vrec["steps"]) is None:
+                    out.write("HARNESS-ERROR violation of run %d does not reproduce even with its chunk prefix (%s)\n" % (vrec["index"], cls))
+                    return 2
+                # minimise the prefix (ddmin on the list of run indices), then the steps
+                cur = prefix
+                n = 2
+                tries = 0
+                while len(cur) >= 1 and tries < 60:
+                    size = max(1, len(cur) // n)
+                    reduced = False
+                    for st in range(0, len(cur), size):
+                        cand = cur[:st] + cur[st + size:]
+                        tries += 1
+                        if test(vrec["steps"], cand) is not None:
+                            cur, n, reduced = cand, max(n - 1, 2), True
+                            break
+                    if not reduced:
+                        if size == 1:
+                            break
+                        n = min(len(cur), n * 2)
+                prefix = cur
+                test = kernel.make_tester(prop, tier, master, prefix, vrec["cfg"], target)
+                steps, final, used = kernel.shrink(test, vrec["steps"], budget=150)
+                if final is None:
+                    out.write("HARNESS-ERROR violation of run %d lost while minimising (%s)\n" % (vrec["index"], cls))
+                    return 2
             viol = final["violation"]
             k = match_known(known, prop, viol, steps)
             sig = (viol["oracle"], steps[viol["step_index"]].get("op"), k["finding_id"] if k else viol["detail"][:60])
             if sig in seen_sig:
                 continue
             seen_sig.add(sig)
-            path = kernel.write_replay(prop, tier, master, vrec, steps, final)
+            path = kernel.write_replay(prop, tier, master, vrec, steps, final, prefix)
             ok, tail = kernel.verify_replay_fresh(path)
             if not ok:
                 out.write("HARNESS-ERROR replay %s does not reproduce in a fresh interpreter: %s\n" % (path, tail))
@@ -189,17 +239,18 @@ def cmd_check(prop, tier, master, runs, workers, wall, out, write_evidence=True)
                 known_hits[k["finding_id"]] += total["vcount"][cls]
                 reported.append(("known", k, path, viol, len(steps), len(vrec["steps"])))
             else:
-                unknown.append((path, viol, len(steps), len(vrec["steps"]), total["vcount"][cls]))
+                unknown.append((path, viol, len(steps), len(vrec["steps"]), total["vcount"][cls], len(prefix)))
     for kind, k, path, viol, n1, n0 in reported:
         out.write("KNOWN-FINDING: property=%s %s [%s] (%s; minimised %d->%d steps; replay=%s)\n" % (
             prop, k["finding_id"], k.get("text", "")[:160], viol["oracle"], n0, n1, path))
-    for path, viol, n1, n0, cnt in unknown:
-        out.write("  violation %s/%s in %d runs, minimised %d->%d steps: %s\n" % (prop, viol["oracle"], cnt, n0, n1, viol["detail"][:400]))
+    for path, viol, n1, n0, cnt, npre in unknown:
+        out.write("  violation %s/%s in %d runs, minimised %d->%d steps%s: %s\n" % (
+            prop, viol["oracle"], cnt, n0, n1, (" after %d earlier run(s) in the same process" % npre) if npre else "", viol["detail"][:400]))
         out.write("VIOLATION property=%s replay=%s\n" % (prop, path))
     wall_s = time.time() - t0
     if write_evidence:
         from dsim import evidence
-        evidence.write(prop, tier, master, check, params, total, det, known_hits, unknown, wall_s, workers)
+        evidence.write(prop, tier, master, check, params, total, det, known_hits, [u[:5] for u in unknown], wall_s, workers)
     out.write("%s %s: %d runs, %d steps, %.1fs, %d distinct non-trivial histories, %d abstract states, violations: %d unknown class(es), %d known finding(s)\n" % (
         prop, tier, total["n"], total["steps"], wall_s, len(total["nontrivial"]), len(total["states"]), len(unknown), len(known_hits)))
     return 1 if unknown else 0
